@@ -1,0 +1,5 @@
+//go:build !verif
+
+package dials
+
+func verifSched(string) {}
